@@ -120,7 +120,14 @@ def run_scenarios(scenarios, workdir, profile="rel", jobs=None):
     for old in os.listdir(workdir):
         if old.startswith("trace.") and old.endswith(".ndjson"):
             os.remove(os.path.join(workdir, old))
-    p = sh([exe, "run", scn, prefix, "--jobs", str(jobs)])
+    # watchdog: the harness reports hangs of the code under test itself (scheduler); if the harness process does not
+    # come back at all that is a defect of the tooling, reported as such (exit 2) instead of waiting forever
+    limit = 1800 + len(scenarios) // 10
+    try:
+        p = sh([exe, "run", scn, prefix, "--jobs", str(jobs)], timeout=limit)
+    except subprocess.TimeoutExpired:
+        sh(["pkill", "-f", scn])
+        raise ToolError("harness did not finish %d scenarios within %d s" % (len(scenarios), limit))
     if p.returncode != 0:
         raise ToolError("harness failed: " + p.stdout[-2000:])
     info = json.loads(p.stdout.strip().splitlines()[-1])
